@@ -176,7 +176,10 @@ def _availability(ctx):
             for key in keys:
                 ctx.count("evaluations")
                 ctx.count("producer_path_cases")
-                got = AIOKafkaProducer._partition(fake, "t", None, None, None, key, None)
+                try:
+                    got = AIOKafkaProducer._partition(fake, "t", None, None, None, key, None)
+                except Exception as e:  # noqa: BLE001 - the code under test failing on a valid input is a verdict, not a harness error
+                    got = f"raised {type(e).__name__}: {e}"
                 want = sorted(md.partitions_for_topic("t"))[java_partition(key, n)]
                 if got != want:
                     ctx.violation("producer_partition", {"kind": "producer-path"},
@@ -186,7 +189,10 @@ def _availability(ctx):
             for seed in range(8):
                 random.seed(seed)
                 ctx.count("evaluations")
-                got = AIOKafkaProducer._partition(fake, "t", None, None, None, None, None)
+                try:
+                    got = AIOKafkaProducer._partition(fake, "t", None, None, None, None, None)
+                except Exception as e:  # noqa: BLE001
+                    got = f"raised {type(e).__name__}: {e}"
                 if avail and got not in avail:
                     ctx.violation("unkeyed_available", {"kind": "producer-unkeyed"},
                                   {"kind": "producer-unkeyed", "n": n, "down": list(down), "seed": seed},
